@@ -3,6 +3,8 @@ use serde_json::Value;
 use crate::report::Tier;
 
 pub mod c01;
+pub mod c02;
+pub mod c03;
 pub mod c11;
 
 pub fn threads() -> usize {
@@ -15,6 +17,8 @@ pub fn threads() -> usize {
 pub fn dispatch(id: &str, tier: Tier, replay: Option<Value>, _rest: &[String]) -> i32 {
     match id {
         "C01" => c01::run(tier, replay),
+        "C02" => c02::run(tier, replay),
+        "C03" => c03::run(tier, replay),
         "C11" => c11::run(tier, replay),
         _ => {
             eprintln!("unknown property {id}");
